@@ -22,7 +22,9 @@ func VerifC07Teardown() {
 	inb, outb := vParam("INB", 3), vParam("OUTB", 0)
 	stream := ":srv FIRST x\r\n"
 	for i := 0; i < inb; i++ {
-		switch i % 4 { // a mixed backlog: lines with built-in handlers that read / update the client's own state
+		switch i % 5 { // a mixed backlog: lines with built-in handlers that read / update the client's own state, or answer
+		case 4:
+			stream += "PING :p" + vItoa(i) + "\r\n"
 		case 1:
 			stream += ":srv 001 me :welcome\r\n"
 		case 2:
@@ -58,7 +60,9 @@ func VerifC07Teardown() {
 			for i := 0; i < outb; i++ {
 				c.Raw("PRIVMSG #c :" + vItoa(i))
 			}
-			<-gate
+			if vParam("NOGATE", 0) == 0 {
+				<-gate
+			} // (NOGATE: the event loop works through the backlog - and answers its PINGs - while the peer is stalled)
 		}
 	})
 	bgGo := make(chan struct{})
